@@ -15,6 +15,8 @@ CLAIMS = {
          "adversary classes are explicit tiny alphabets (so the graph closes); tREFI=100 cycles; postponing 1-2 quick, 1-8 thorough", "explicit-state BFS to closure + bad-cycle (lasso) search on the complete graph"),
  "C05": (MC, "closed graphs of the 2-port core (victim + adversary classes); bad-cycle search per obligation (offered->accepted, accepted->served, both ports, global progress) with exact worst-case waits; known crossbar re-arbitration finding fingerprinted, any other lasso is a violation",
          "adversary classes explicit; liveness only on complete graphs; anti-starvation timers set to 4", "explicit-state BFS to closure + bad-cycle (lasso) search on the complete graph"),
+ "C06": (EX, "exhaustive enumeration of every port address (two passes, second in bit-reversed order) through the real crossbar+controller netlist for a grid of geometries (SDR/DDR2/DDR3/LPDDR4 burst alignments, 1-4 bank bits, 8-12 column bits, 1-2 ranks, bank byte alignments), and structured address sets (all column x bank values with walking/extreme rows, all rows) on real-size row spaces with auto-precharge; (rank, bank, ACT row, READ column, A10) observed on the DFI compared with an independent bit-permutation reference; injectivity, surjectivity, walking order",
+         "complete per small geometry; structured (bit-permutation argument) for >= 11 row bits and for > 10 column bits; compiled step validated against migen's evaluator on the first 300 cycles of each run", "exhaustive input enumeration through the elaborated netlist against an independent reference mapping"),
  "C07": (MC, "complete reachable graphs of the real port converter (up 1:2..1:32, down 2:1..8:1, modes both/read/write) between a K-command native master (all address orders, last/flush hints) and a real-core-limited memory responder with unrestricted timing; byte-exact reference, quiescence comparison and drain liveness",
          "bounded: K commands over two wide words; responder latencies >= real-core minima (3/6 cycles)", BFS),
  "C10": (MC, "complete reachable graphs of the real Wishbone bridge (equal width, narrow bus with merge buffer/read cache, wide bus with down-converter, base addresses) and of the native-to-Wishbone bridge: K accesses from a colliding alphabet, classic and incrementing-burst cycles, aborts possible in every cycle, all memory timings; ack-once rule, byte-exact reference with value sets after aborted writes, quiescent memory comparison, liveness",
